@@ -270,6 +270,9 @@ func (astEngine) Isolated() bool { return false }
 
 func (e astEngine) opts(g *Gen) (genOpts, int) {
 	o := genOpts{maxFiles: 5, maxDepth: 3, locs: true}
+	if e.section == "c04" {
+		o = genOpts{maxFiles: 9, maxDepth: 2, locs: false}
+	}
 	n := 1000
 	if g.Thorough() {
 		n = 6000
